@@ -363,7 +363,7 @@ impl Property for C19 {
     }
 
     fn cases(tier: Tier) -> u64 {
-        tier.pick(60_000, 3_000_000)
+        tier.pick(200_000, 3_000_000)
     }
 
     fn exhaustive_spaces(_tier: Tier) -> Vec<String> {
